@@ -21,6 +21,10 @@ type zzC04Root struct {
 func VerifC04_Loop() {
 	n := zzChoice("n", zzBound("maxlen", 3, 4)) // 0..2 / 0..3 items
 	items := []string{"v0", "skip", "v2", "v3"}[:n]
+	if n >= 1 && zzBool("allskip") {
+		// every instance is filtered by its own v-if: the loop iterates but produces nothing
+		items = []string{"skip", "skip", "skip", "skip"}[:n]
+	}
 	kind := zzChoice("kind", 8)
 	varName := []string{"it", "x", "X"}[zzChoice("var", 3)]
 	indexForm := zzBool("indexform")
